@@ -100,7 +100,9 @@ PrintedGrouping(c) ==
   /\ \A k \in 1..Len(c.atomlines) : LET e == EntryOfLine(c, c.atomlines[k]) IN
         c.atoms[e[2]].r = e[1] /\ c.atoms[e[4]].r = e[3]
   /\ \A k \in 1..Len(c.residues) : LET rb == c.residues[k]  cb == c.chains[rb[1]] IN
-        c.res[rb[2]].chain = cb[1] /\ c.res[rb[3]].chain = cb[2]
+        \* (a heading names an unordered pair of chains: "A and B" may hold residues of B and A)
+        \/ c.res[rb[2]].chain = cb[1] /\ c.res[rb[3]].chain = cb[2]
+        \/ c.res[rb[2]].chain = cb[2] /\ c.res[rb[3]].chain = cb[1]
   /\ \A k1 \in 1..Len(c.chains) : \A k2 \in 1..Len(c.chains) :
         k1 # k2 => <<c.chains[k1][1], c.chains[k1][2]>> # <<c.chains[k2][1], c.chains[k2][2]>>
   /\ \A k1 \in 1..Len(c.residues) : \A k2 \in 1..Len(c.residues) :
